@@ -325,7 +325,24 @@ func unmarshalSourceFile(source string) (*sourceFile, error) {
 	if len(file.RelPath) < 1 {
 		return nil, simpleTrzszError("Invalid source file: %s", source)
 	}
+	for _, name := range file.RelPath {
+		if !isPlainFileName(name) {
+			return nil, simpleTrzszError("Invalid source file: %s", source)
+		}
+	}
 	return &file, nil
+}
+
+// isPlainFileName reports whether a name received from the peer is a single path element,
+// so that joining it onto the destination path cannot lead outside of it.
+func isPlainFileName(name string) bool {
+	if name == "" || name == "." || name == ".." {
+		return false
+	}
+	if strings.ContainsRune(name, '/') || strings.ContainsRune(name, filepath.Separator) {
+		return false
+	}
+	return true
 }
 
 type targetFile struct {
